@@ -22,7 +22,7 @@ try:
     from scipy.misc import factorial
 except ImportError:
     from scipy.special import factorial
-from scipy.special import beta, gamma, gammaln, hermitenorm
+from scipy.special import beta, gamma, gammaln, gammasgn, hermitenorm
 
 # Legacy repr printing from numpy.
 
@@ -94,9 +94,13 @@ def Q(dim, dfd=np.inf):
     coeffs = np.around(hermitenorm(j - 1).c)
     if np.isfinite(m):
         for L in range((j - 1) // 2 + 1):
+            b = (m + 2 - j + 2 * L) / 2.
             f = np.exp(gammaln((m + 1) / 2.)
-                       - gammaln((m + 2 - j + 2 * L) / 2.)
+                       - gammaln(b)
                        - 0.5 * (j - 1 - 2 * L) * (np.log(m / 2.)))
+            # gammaln is log|gamma|: restore the sign of 1 / gamma(b), which
+            # is negative for some b < 0 and zero at the poles of gamma
+            f *= 0. if (b <= 0 and b == np.floor(b)) else gammasgn(b)
             coeffs[2 * L] *= f
     return np.poly1d(coeffs)
 
